@@ -161,6 +161,11 @@ def definitely_some(prov, f, u):
                     st = SOME
                 elif s.rv.k == "agg" and s.rv.j.get("variant") == "None":
                     st = NONE
+                elif s.rv.k == "use" and s.rv.ops and s.rv.ops[0].place is not None and not s.rv.ops[0].place.proj:
+                    # `x = move tmp` where tmp was just built as Some(..) / None
+                    ds_ = [site for kind, site in d.defs.get(s.rv.ops[0].place.local, ()) if kind == "stmt"]
+                    vs_ = {site.rv.j.get("variant") if site.rv.k == "agg" else None for site in ds_}
+                    st = SOME if ds_ and vs_ == {"Some"} else NONE if ds_ and vs_ == {"None"} else TOP
                 else:
                     st = TOP
         t = cfg.blocks[bidx].term
